@@ -68,6 +68,16 @@ func scenario(seed int64, k int, res *l2.Result) {
 	res.Count("honest_growth_blocks", int64(grown))
 	good := phase("initial-sync", tip.Height, ok, stuck, last)
 	res.Nontrivial = last.BestHeight > 0 || ok
+	if good && plan.HonestBlip {
+		// Let the other peers get connected (and asked) first.
+		l2.WaitFor(3*time.Second, func() bool { return int(w.Svc.ConnectedCount()) >= len(plan.Peers) })
+		time.Sleep(50 * time.Millisecond)
+		for _, hp := range b.Honest {
+			hp.Disconnect()
+		}
+		time.Sleep(20 * time.Millisecond)
+		res.Count("honest_blips", 1)
+	}
 	if good && plan.Extend > 0 {
 		ext := w.G.Extend(tip, plan.Extend, 0)
 		nt := ext[len(ext)-1]
